@@ -40,6 +40,10 @@ Pool == { R("min", NV(N0)), R("min", NV(N7)), R("max", NV(N10)), R("max", NV(N0)
                                              [t |-> "set", rules |-> <<R("type", IdV("null"))>>], [t |-> "set", rules |-> <<R("type", IdV("string"))>>]>>]),
           R("or", [t |-> "list", items |-> <<[t |-> "set", rules |-> <<R("type", IdV("string")), R("minLength", NV(N7)), R("maxLength", NV(N3))>>], IdV("integer"), IdV("float"), IdV("boolean"), IdV("null")>>]),
           R("or", [t |-> "list", items |-> <<[t |-> "set", rules |-> <<R("type", IdV("integer")), R("min", NV(N0)), R("max", NV(N10))>>], IdV("string"), IdV("float"), IdV("boolean"), IdV("null")>>]),
+          \* optional inside a rule set (it names a user type, or a kind): a rule set is not an object property
+          R("or", [t |-> "list", items |-> <<[t |-> "set", rules |-> <<R("type", TRef("@T")), R("optional", BV(TRUE))>>], IdV("integer"), IdV("string"), IdV("float"), IdV("boolean"), IdV("null")>>]),
+          \* counts just beyond 64 bits: they bound like any huge count, they are not small numbers
+          R("minLength", NV(<<49, 56, 52, 52, 54, 55, 52, 52, 48, 55, 51, 55, 48, 57, 53, 53, 49, 54, 49, 57>>)), R("minItems", NV(<<49, 56, 52, 52, 54, 55, 52, 52, 48, 55, 51, 55, 48, 57, 53, 53, 49, 54, 49, 54>>)),
           R("type", IdV("integer")), R("type", IdV("float")), R("type", IdV("string")), R("type", IdV("decimal")), R("type", IdV("email")),
           R("type", IdV("boolean")), R("type", IdV("null")), R("type", IdV("object")), R("type", IdV("array")),
           R("type", IdV("any")), R("type", IdV("enum")), R("type", IdV("mixed")), R("type", TRef("@T")), R("foo", BV(TRUE)) }
